@@ -21,7 +21,8 @@ from gen import consts_c20
 TWO_PI = 2 * np.pi
 RULE = ('radiation: orbital/synodic phases uniform in [0,2pi) plus corners (0, 2pi, negative, +-50 rad), '
         'longitudes in [0,2pi), latitudes in [-pi/2,pi/2] incl. poles/equator, point sets of 1..16 points and '
-        'Gaussian grids (16x8 .. T42), (mean, variation) = SI defaults, non-dimensionalised defaults, random '
+        'Gaussian grids (16x8 .. T42, with Grid.longitude_offset 0, 0.3, half a cell, pi/7, -0.4: the flux is '
+        'compared at the own node longitudes of the grid), (mean, variation) = SI defaults, non-dimensionalised defaults, random '
         '0<=variation<=mean incl. variation=0 and variation=mean; model times up to ~4 years with random '
         'reference datetimes; Held-Suarez: 1..12 sigma layers (equidistant / uneven / strongly uneven), random '
         'sigma_b, kf, ka, ks (both orders), minT, maxT, dTy, dThz, p0, random reference temperatures and random '
@@ -77,7 +78,37 @@ def _grid(sh, name):
   if name == 'g12x6-offset':
     return sh.Grid(longitude_wavenumbers=4, total_wavenumbers=5, longitude_nodes=12, latitude_nodes=6,
                    longitude_offset=0.3)
+  if name == 'g16x8-halfcell':           # first node half a cell east of Greenwich
+    return sh.Grid(longitude_wavenumbers=6, total_wavenumbers=7, longitude_nodes=16, latitude_nodes=8,
+                   longitude_offset=np.pi / 16)
+  if name == 'g12x6-negative':           # the [-pi, pi) layout shifted a little: negative node longitudes
+    return sh.Grid(longitude_wavenumbers=4, total_wavenumbers=5, longitude_nodes=12, latitude_nodes=6,
+                   latitude_spacing='equiangular', longitude_offset=-0.4)
+  if '@' in name:                        # e.g. 'T21@pi/7': a standard grid with a longitude offset
+    base, off = name.split('@')
+    return getattr(sh.Grid, base)(longitude_offset=OFFSETS[off])
   return getattr(sh.Grid, name)()
+
+
+OFFSETS = {'pi/7': np.pi / 7, 'halfcell': np.pi / 64, '-0.4': -0.4, '2pi+0.2': TWO_PI + 0.2}
+
+
+def own_nodes(grid):
+  """Longitude / latitude of every node of the grid, from the grid's OWN axes (Grid.longitudes / Grid.latitudes,
+  which include Grid.longitude_offset) - not from SolarRadiation.lon / .lat."""
+  lon, lat = np.meshgrid(np.asarray(grid.longitudes, dtype=float), np.asarray(grid.latitudes, dtype=float),
+                         indexing='ij')
+  return lon, lat
+
+
+def sun_vector_oracle(o, s, consts_eot):
+  """Unit vector to the sun in earth-fixed coordinates, written out independently of radiation.py (only its
+  published constants): declination 23.45 deg * sin(b), equation of time in minutes, subsolar longitude."""
+  b = o - 79 * TWO_PI / 365.25
+  decl = np.deg2rad(23.45) * np.sin(b)
+  minutes = consts_eot[0] * np.sin(2 * b) - consts_eot[1] * np.cos(b) - consts_eot[2] * np.sin(b)
+  sub_lon = np.pi - s - TWO_PI * minutes / 1440
+  return np.array([np.cos(decl) * np.cos(sub_lon), np.cos(decl) * np.sin(sub_lon), np.sin(decl)])
 
 
 def run(ctx: common.Ctx):
@@ -146,7 +177,10 @@ def run(ctx: common.Ctx):
   marks.append(('corr-radiation', _time.time()))
   # SolarRadiation: time -> orbital time -> flux on a grid
   ntime = ctx.n(6, 60)
-  grid_names = ['g16x8', 'g12x6-offset'] if ctx.quick else ['g16x8', 'g12x6-offset', 'T21']
+  # grids with a non-zero Grid.longitude_offset included (0.3, half a cell, negative): the radiation lives on the
+  # grid's own nodes, so the model is fed the grid's own longitudes (Grid.nodal_mesh), not SolarRadiation.lon
+  grid_names = (['g16x8', 'g12x6-offset', 'g16x8-halfcell', 'g12x6-negative'] if ctx.quick else
+                ['g16x8', 'g12x6-offset', 'g16x8-halfcell', 'g12x6-negative', 'T21', 'T21@pi/7'])
   sr_cache = {}
   for ti in range(ntime):
     gname = grid_names[ti % len(grid_names)]
@@ -156,8 +190,10 @@ def run(ctx: common.Ctx):
     if ti % 3 == 2:
       ref = np.datetime64(ref, 's')
     normalized = ti % 4 == 3
-    coords = cs.CoordinateSystem(_grid(sh, gname), sc.SigmaCoordinates.equidistant(2))
-    inp0 = dict(grid=gname, reference_datetime=str(ref), normalized=normalized)
+    grid_t = _grid(sh, gname)
+    coords = cs.CoordinateSystem(grid_t, sc.SigmaCoordinates.equidistant(2))
+    inp0 = dict(grid=gname, longitude_offset=float(grid_t.longitude_offset), reference_datetime=str(ref),
+                normalized=normalized)
     with ctx.impl('solar-radiation-exception', inp0):
       srad = (rad.SolarRadiation.normalized if normalized else rad.SolarRadiation)(coords, specs, ref)
       sr_cache[ti] = srad
@@ -172,12 +208,16 @@ def run(ctx: common.Ctx):
       add(f'orbital {fbits(ro)} {fbits(rs)} {fbits(ko)} {fbits(ks_)} {fbits(time)}',
           'SolarRadiation.time_to_orbital_time', inp, [float(now.orbital_phase), float(now.synodic_phase)],
           kind='phase')
-      lon, lat = np.asarray(srad.lon).ravel(), np.asarray(srad.lat).ravel()
+      glon, glat = own_nodes(grid_t)
+      lon, lat = glon.ravel(), glat.ravel()
       flux = np.asarray(srad.radiation_flux(time_arg))
+      ctx.expect(tuple(flux.shape) == tuple(grid_t.nodal_shape), 'flux-shape',
+                 f'SolarRadiation.radiation_flux has shape {flux.shape}, the grid has nodes {grid_t.nodal_shape}', inp)
       add(f'fluxt {cvec} {fbits(ro)} {fbits(rs)} {fbits(ko)} {fbits(ks_)} {fbits(time)} {fbits(mean)} '
           f'{fbits(var)} {fvec(lon)} {fvec(lat)}', 'SolarRadiation.radiation_flux', inp, flux.ravel(),
           atol=1e-12 * max(1.0, mean + var))
       ctx.dist[f'time:grid={gname}'] += 1
+      ctx.dist[f'time:longitude-offset={"zero" if grid_t.longitude_offset == 0 else "nonzero"}'] += 1
       ctx.dist[f'time:normalized={normalized}'] += 1
       ctx.case(('fluxt', gname, str(ref), time), nontrivial=bool((flux > 0).any() and (flux == 0).any()),
                sample=inp if ti == 3 else None)
@@ -306,7 +346,7 @@ def run(ctx: common.Ctx):
 
   # ------------------------------------------------------------------ probes on the real code
   marks.append(('compare', _time.time()))
-  probes_radiation(ctx, rad, specs, sh, cs, sc, jnp, units, grid_names)
+  probes_radiation(ctx, rad, specs, sh, cs, sc, jnp, units, grid_names, eot)
   marks.append(('probes-radiation', _time.time()))
   probes_held_suarez(ctx, hs, pe, specs, sh, cs, sc, jnp, units)
   marks.append(('probes-held-suarez', _time.time()))
@@ -439,7 +479,7 @@ def control_unclipped(ctx, hs, pe, specs, sh, cs, sc, jnp):
   return notes
 
 
-def probes_radiation(ctx, rad, specs, sh, cs, sc, jnp, units, grid_names):
+def probes_radiation(ctx, rad, specs, sh, cs, sc, jnp, units, grid_names, eot):
   rng = ctx.rng
   nprobe = ctx.n(60, 1000)
   for pi in range(nprobe):
@@ -510,10 +550,12 @@ def probes_radiation(ctx, rad, specs, sh, cs, sc, jnp, units, grid_names):
                  dict(inp, shifts=[k, m, j]))
 
   # SolarRadiation on grids: bounds, wrap, global mean
-  ngrid = ctx.n(6, 40)
-  gm_grids = ['T21', 'T21', 'T31', 'T21', 'T42', 'T21']
+  # grids whose first longitude node is not at zero (Grid.longitude_offset: pi/7, half a cell, negative) included:
+  # node (i, j) of the flux sits at grid.longitudes[i], grid.latitudes[j]
+  ngrid = ctx.n(8, 48)
+  gm_grids = ['T21', 'T21@pi/7', 'T31', 'T21@halfcell', 'T42', 'T21@-0.4', 'T21', 'T21@pi/7']
   for gi in range(ngrid):
-    gname = gm_grids[gi % len(gm_grids)] if (ctx.quick is False or gi % 3 != 2) else 'T21'
+    gname = gm_grids[gi % len(gm_grids)] if (ctx.quick is False or gi % 8 != 2) else 'T21@-0.4'
     ref = datetime.datetime(int(rng.integers(1975, 2025)), 1, 1) + datetime.timedelta(
         minutes=int(rng.integers(0, 365 * 1440)))
     days = float(rng.uniform(0, 1400)) if gi else 0.0
@@ -522,6 +564,8 @@ def probes_radiation(ctx, rad, specs, sh, cs, sc, jnp, units, grid_names):
     ctx.case(('probe-grid', gname, str(ref), days), nontrivial=True)
     with ctx.impl('solar-radiation-probe-exception', inp):
       grid = _grid(sh, gname)
+      inp['longitude_offset'] = float(grid.longitude_offset)
+      ctx.dist[f'probe-grid:longitude-offset={"zero" if grid.longitude_offset == 0 else "nonzero"}'] += 1
       coords = cs.CoordinateSystem(grid, sc.SigmaCoordinates.equidistant(2))
       srad = (rad.SolarRadiation.normalized if normalized else rad.SolarRadiation)(coords, specs, ref)
       time = float(specs.nondimensionalize(days * units.day))
@@ -545,10 +589,29 @@ def probes_radiation(ctx, rad, specs, sh, cs, sc, jnp, units, grid_names):
         r = (u - w) / TWO_PI
         ctx.expect(abs(r - round(r)) < 1e-9, 'wrap-integer-periods',
                    f'{nm} phase wrap removed {r} periods (not an integer)', inp)
+      glon, glat = own_nodes(grid)                # the grid's own node positions (longitude_offset included)
       flux_u = np.asarray(rad.get_radiation_flux(rad.OrbitalTime(orbital_phase=uo, synodic_phase=us),
-                                                 srad.lon, srad.lat, mean, var))
+                                                 glon, glat, mean, var))
       ctx.expect(np.abs(flux_u - flux).max() <= 1e-8 * top, 'wrap-invisible',
                  f'flux at wrapped and unwrapped phases differ by {np.abs(flux_u - flux).max()}', inp)
+      # the sun's position at the grid's own nodes, independent of radiation.py: flux = S * max(0, sun . zenith),
+      # exactly zero on the night side, positive on the day side
+      sun = sun_vector_oracle(wo, ws, eot)
+      zen = np.stack([np.cos(glat) * np.cos(glon), np.cos(glat) * np.sin(glon), np.sin(glat)])
+      sin_alt = np.tensordot(sun, zen, axes=1)
+      night, day = sin_alt < -1e-9, sin_alt > 1e-9
+      s_now = mean + var * np.cos(wo - 3 * TWO_PI / 365.25)
+      ctx.expect(flux.shape == sin_alt.shape and bool((flux[night] == 0).all()), 'grid-night-zero',
+                 'SolarRadiation.radiation_flux is non-zero at grid nodes where the sun is below the horizon: up to '
+                 f'{(flux[night].max() if night.any() else 0) / top:.3e} of the perihelion constant', inp)
+      ctx.expect(flux.shape == sin_alt.shape and bool((flux[day] > 0).all()), 'grid-day-positive',
+                 'SolarRadiation.radiation_flux is zero at grid nodes where the sun is above the horizon', inp)
+      err = float(np.abs(flux - s_now * np.maximum(0, sin_alt)).max()) if flux.shape == sin_alt.shape else np.inf
+      ctx.expect(err <= 1e-9 * top, 'grid-flux-oracle',
+                 'SolarRadiation.radiation_flux != irradiance * max(0, sin altitude) at the longitudes / latitudes of '
+                 f'the grid nodes (Grid.longitudes, Grid.latitudes): error {err / top:.3e} of the perihelion constant',
+                 inp)
+      ctx.expect(bool(night.any() and day.any()), 'grid-oracle-nontrivial', 'oracle has no day or no night side', inp)
       # global mean = S(orbital phase)/4 up to quadrature error (test only, generous tolerance)
       irr = float(rad.get_direct_solar_irradiance(wo, mean, var))
       gmean = float(grid.integrate(jnp.asarray(flux))) / (4 * np.pi * grid.radius**2)
